@@ -28,7 +28,10 @@ def run_check(pid: str, tier: str, seed: int, program=None, quiet=False, write=T
     chk = report.Check(pid, tier, seed, mod.EXPLANATION, level=getattr(mod, "LEVEL", "other"))
     try:
         S = Session(program or Program())
-        mod.run(chk, S)
+        from .harness import running
+
+        with running(pid):
+            mod.run(chk, S)
         S.absorb_all()
         chk.extra["analysed"] = S.stats()
         # trusted base, decided: every linear-algebra primitive the rules of this check met while interpreting (their own and their lenders') still forwards
